@@ -920,7 +920,7 @@ func (f *frame) applyMods(mods []ModLoc, envPre *env, st *state, reach, rel stri
 					vc.havocKey(st, kl.key)
 				} else {
 					inner := so[len("(Array Ref ") : len(so)-1]
-					vc.hset(st, kl.key, "(store "+vc.hget(st, kl.key)+" "+kl.ref+" "+vc.freshHeap("hv", inner)+")")
+					vc.hset(st, kl.key, "(store "+vc.hget(st, kl.key)+" "+kl.ref+" "+vc.freshHeap("hv", inner, "")+")")
 				}
 			}
 		}
